@@ -187,7 +187,11 @@ func (ex *Exec) execInstr(fr *Frame, st *State, ins ssa.Instruction) {
 		}
 		ex.assume(st.PC, ts.And(ts.Le(ts.Int(int64(lo)), idx), ts.Lt(idx, ts.Int(int64(n)))))
 		vs := []Value{TV{idx}, TV{ts.Fresh("select.ok", SBool)}}
-		for _, s := range x.States {
+		for i, s := range x.States {
+			// a case on a nil channel is never ready
+			if cv, ok := ex.operand(fr, st, s.Chan).(TV); ok && cv.T.Sort == SInt {
+				ex.assume(st.PC, ts.Implies(ts.Eq(idx, ts.Int(int64(i))), ts.Neq(cv.T, ts.Int(0))))
+			}
 			if s.Dir == types.RecvOnly {
 				vs = append(vs, ex.fresh(st, "select.recv", s.Chan.Type().Underlying().(*types.Chan).Elem()))
 			}
